@@ -1265,7 +1265,11 @@ class Runner:
         # the model of funcinit/zero (Model/InitAuto.lean; theorem auto_image_correct) against the executed code:
         # it must agree with the run-time bytes on EVERY input, also where the static image differs (known findings)
         inc = 1 if isinstance(o.ty, Arr) and o.ty.n is None else 0
-        mline = self.drv_lines(["auto %d %s %s" % (inc, drv_type(o.ty, tg), ini_m(o.ini))])[0]
+        margs = "%d %s %s" % (inc, drv_type(o.ty, tg), ini_m(o.ini))
+        mline, acl = self.drv_lines(["auto " + margs, "autoclass " + margs])
+        in_auto_class = acl == "yes"
+        self.counts["auto_image_proved" if in_auto_class else "auto_image_differential_only"] = \
+            self.counts.get("auto_image_proved" if in_auto_class else "auto_image_differential_only", 0) + 1
         if not mline.startswith("ok"):
             raise Broken("drv_c07 auto: %s" % mline[:200])
         mm = parse_image(mline.split(" | ")[1])
@@ -1303,6 +1307,10 @@ class Runner:
             elif (w & mask[i]) != (g & mask[i]):
                 bad = (i, w, g)
                 break
+        if bad and in_auto_class:
+            # auto_image_correct says model memory = static image here, and the model agreed with the code above
+            raise Broken("autoClass holds but the run-time bytes differ from the static image (contradicts "
+                         "auto_image_correct): %s" % o.auto_text()[:400])
         if bad:
             rep = dict(replay, kind="auto-image", byte=bad[0], expected=bad[1], got=bad[2],
                        what="automatic object byte %d holds %r, the static image has %r" % (bad[0], bad[2], bad[1]),
@@ -1614,7 +1622,13 @@ META = {
              "initialiser at a node of the object's tree of sub-objects, and under a C layout two nodes are "
              "bit-disjoint or nested (nested later = element of an earlier string), which gives EvsOK and Wf; "
              "(2) emitdata_image_ev — list surgery and emission = fold of writes; (3) parseinit_refines_ref — that "
-             "fold = the reference's image.  Tied to /repo on every run by compiling generated "
+             "fold = the reference's image.  Automatic objects (auto_image_correct): Model/InitAuto.lean models "
+             "qbe.c funcinit/zero on the object's bytes (gap zero-filling with the offset/max bookkeeping, element stores "
+             "of strings, funcstore with bit-field read-modify-write after zero-filling the storage unit); "
+             "funcinit_image_correct: for every flat sorted list and any previous memory content the object ends up "
+             "holding the static image; with autoClass (imgClass and no element patched inside an earlier string = "
+             "known finding auto-zero-after-patch, auto_image_counterexample) the run-time memory equals the C11 image "
+             "and the static bytes.  Tied to /repo on every run by compiling generated "
              "(type, initialiser) objects with the freshly built cproc-qbe for all targets and comparing every data "
              "definition with the model pipeline and with the recursive C11 6.7.9 reference (itself validated against "
              "gcc), by executing automatic objects, and by malformed inputs under ASan."),
@@ -1629,7 +1643,10 @@ META = {
              "hypotheses of emitdata_image_ev are no longer assumed: static_image_correct has hypotheses on "
              "(t, inc, i) only (imgClass, drv_c07 `imgclass`; evidence field static_image_coverage; the check raises "
              "if imgClass holds while the driver's hyp flag is 0); outside imgClass (unions combined with designators, "
-             "non-constant values — static_image_correct_counterexample) the chain is differential only.  "
+             "non-constant values — static_image_correct_counterexample) the chain is differential only.  The model "
+             "of funcinit is tied by the automatic-object stream: its memory (drv_c07 `auto`) must equal the bytes "
+             "the executed IL leaves (ilpy) on EVERY object, also on the known findings (counter auto_model_agrees); "
+             "the check raises if autoClass holds while run-time bytes and static image differ.  "
              "Known findings: union-member-switch (several union members initialised: not laminar, emitdata's own "
              "XXX), auto-zero-after-patch (funcinit)."),
     "technique": "Lean 4 proof (invariants over list/accumulator/stack) + differential correspondence on emitted data, gcc-validated spec, executed IL",
